@@ -353,6 +353,16 @@ def find_search(fi):
                 if isinstance(g.target, ast.Name) and U(s.value.args[0].elt) == g.target.id and len(g.ifs) == 1:
                     from ..normalise import expand
                     g.ifs[0] = expand(g.ifs[0], Defs(outer.body), keep=(proj, g.target.id))
+
+                    class _Idx(ast.NodeTransformer):
+                        # (a, b, c)[2] is c
+                        def visit_Subscript(self, n_):
+                            self.generic_visit(n_)
+                            if isinstance(n_.value, (ast.Tuple, ast.List)) and isinstance(n_.slice, ast.Constant) and isinstance(n_.slice.value, int) \
+                                    and -len(n_.value.elts) <= n_.slice.value < len(n_.value.elts):
+                                return n_.value.elts[n_.slice.value]
+                            return n_
+                    g.ifs[0] = _Idx().visit(g.ifs[0])
                     # the result may be copied into other names: follow single copies
                     cl = s.targets[0].id
                     stmts = following(outer, s)
